@@ -148,7 +148,8 @@ def job_length(j, seed):
     window = sc.array(dims=['range'], values=[C.sym_var('wlo'), C.sym_var('whi')], unit='dimensionless')
     C.CTX.fork_timeout_ms = 2000
     try:
-        paths = C.explore(lambda: fp._fit_peak_single_model(da, peak=peak, background=bkg, window=window, fit_parameters=fp.FitParameters(), fit_requirements=fp.FitRequirements()), max_paths=64)
+        # through the per-peak driver (one peak model, one background model), so that a change of the private per-model signature is followed
+        paths = C.explore(lambda: fp._fit_peak(da, window, [bkg], [peak], fp.FitParameters(), fp.FitRequirements()), max_paths=64)
     finally:
         fp._assess_fit, fp._perform_fit = real_assess, real_perform
     for k, p in enumerate(paths):
@@ -166,6 +167,79 @@ def job_length(j, seed):
         obs.append(ob_dict(ob))
         if not ok:
             cands.append(('C17:length:assessment', case, f'assessment {getattr(r, "assessment", None)}'))
+    return {'obligations': obs, 'candidates': cands, 'paths': len(paths)}
+
+
+def job_bkgstats(j, seed):
+    """Every candidate (peak model, background model) is assessed against the background-only fit of ITS OWN background
+    model, and against its own full fit: with the optimiser boundary (_perform_fit) returning tagged statistics and the
+    assessment replaced by a recorder, the statistics handed to the assessment are identified by object."""
+    peak_names, bkg_names = j
+    from symex import core as C
+    from .symutil import fresh_run
+
+    sc, model, fp, rp = _load()
+    fresh_run()
+    obs, cands = [], []
+    tag = f'bkgstats[{"+".join(peak_names)} x {"+".join(bkg_names)}]'
+    case = {'kind': 'bkgstats', 'peaks': list(peak_names), 'backgrounds': list(bkg_names)}
+    box = {}
+    _install_stubs(sc, model, fp, box)
+    real_assess, real_perform = fp._assess_fit, fp._perform_fit
+    produced = []   # (frozenset(param names of the fitted model), stats dict)
+    assessed = []   # (peak model, stats, bkg stats)
+
+    def perform(model_, data_, p0, bounds):
+        box['s'] = box.get('s', 0) + 1
+        popt = {name: sc.scalar(C.sym_var(f'popt{box["s"]}_{name}'), variance=C.sym_var(f'pvar{box["s"]}_{name}', sign='0+'), unit='dimensionless') for name in p0}
+        st = {'red_chisq': sc.scalar(C.sym_var(f'rc{box["s"]}')), 'p_value': sc.scalar(C.sym_var(f'pv{box["s"]}')), 'aic': sc.scalar(C.sym_var(f'aic{box["s"]}'))}
+        produced.append((frozenset(model_.param_names), st))
+        return popt, st
+
+    def assess(data_, peak_, popt, stats, bkg_stats, **kw):
+        assessed.append((peak_, popt, stats, bkg_stats))
+        return fp.FitAssessment.failed  # keep the loop going through every candidate
+
+    fp._perform_fit, fp._assess_fit = perform, assess
+    da, xs, ys, vs = _data(sc, 9)
+    peaks = fp._parse_model_spec(tuple(peak_names), prefix='peak_')
+    bkgs = fp._parse_model_spec(tuple(bkg_names), prefix='bkg_')
+    window = sc.array(dims=['range'], values=[C.sym_var('wlo'), C.sym_var('whi')], unit='dimensionless')
+    try:
+        def run():
+            produced.clear()
+            assessed.clear()
+            r = fp._fit_peak(da, window, bkgs, peaks, fp.FitParameters(), fp.FitRequirements())
+            return r, list(produced), list(assessed)
+        paths = C.explore(run, max_paths=16)
+    finally:
+        fp._assess_fit, fp._perform_fit = real_assess, real_perform
+    for k, p in enumerate(paths):
+        if p.inconclusive or p.exc is not None:
+            obs.append({'name': f'{tag}:path{k}', 'status': 'inconclusive' if p.inconclusive else 'violated', 'detail': str(p.inconclusive or repr(p.exc))[:200], 't': 0})
+            if p.exc is not None:
+                cands.append(('C17:bkgstats:raises', case, repr(p.exc)[:100]))
+            continue
+        r, prod, asd = p.value
+        want = [(pk, bg) for pk in peaks for bg in bkgs]
+        ok_n = len(asd) == len(want)
+        bad = []
+        for (pk, bg), (apk, popt, st, bst) in zip(want, asd):
+            full_key = frozenset(pk.param_names | bg.param_names)
+            own_full = [s_ for k_, s_ in prod if k_ == full_key]
+            own_bkg = [s_ for k_, s_ in prod if k_ == frozenset(bg.param_names)]
+            if apk is not pk:
+                bad.append(f'candidate ({type(pk).__name__}, degree {len(bg.param_names) - 1}) assessed with another peak model')
+            if not any(st is s_ for s_ in own_full):
+                bad.append(f'candidate with background of {len(bg.param_names)} parameters assessed with statistics of another fit')
+            if bst is not None and not any(bst is s_ for s_ in own_bkg):
+                whose = [len(k_) for k_, s_ in prod if s_ is bst]
+                bad.append(f'candidate with background of {len(bg.param_names)} parameters compared with the background-only fit of a model with {whose} parameters')
+        ob = C.prove(f'{tag}:path{k}:{len(want)} candidates in product order, each assessed against its own fit and its own background-only fit' + (': ' + bad[0] if bad else ''),
+                     C.B.const(ok_n and not bad), pc=p.pc)
+        obs.append(ob_dict(ob))
+        if ob.status != 'discharged':
+            cands.append(('C17:bkgstats', case, bad[0] if bad else f'{len(asd)} candidates assessed, {len(want)} expected'))
     return {'obligations': obs, 'candidates': cands, 'paths': len(paths)}
 
 
@@ -404,7 +478,7 @@ def job_loop(j, seed):
         def __init__(self, a):
             self.assessment = a
 
-    def fake_single(data, peak, background, window, fit_parameters, fit_requirements):
+    def fake_single(data, peak, background, window, fit_parameters, fit_requirements, **_kw):
         order.append((type(peak).__name__, background.degree))
         return R(fp.FitAssessment.success if len(order) == 3 else fp.FitAssessment.p_too_small)
 
@@ -497,6 +571,7 @@ def run(chk):
     ms = list(range(0, 9)) if chk.tier == 'quick' else list(range(0, 13))
     run_jobs(chk, job_length, [(m, 'gaussian', 'linear') for m in ms] + [(m, 'pseudo_voigt', 'quadratic') for m in ms[::2]])
     run_jobs(chk, job_stats, [(3, 2), (4, 2), (2, 2), (4, 5)])
+    run_jobs(chk, job_bkgstats, [(('gaussian',), ('linear', 'quadratic')), (('gaussian', 'lorentzian'), ('linear', 'quadratic'))] + ([] if chk.tier == 'quick' else [(('pseudo_voigt', 'gaussian', 'lorentzian'), ('quadratic', 'linear'))]))
     run_jobs(chk, job_assess, [(4, 'gaussian'), (5, 'lorentzian')] if chk.tier == 'quick' else [(4, 'gaussian'), (5, 'gaussian'), (5, 'lorentzian'), (5, 'pseudo_voigt')])
     run_jobs(chk, job_windows, [1, 2, 3])
     run_jobs(chk, job_loop, [0])
@@ -546,6 +621,41 @@ def replay_real(case):
                 bad.append(f'm={m}: assessment {res[0].assessment}')
         except Exception as e:  # noqa: BLE001
             bad.append(f'window with {m} points: fit_peaks raises {type(e).__name__}: {e}')
+    elif kind == 'bkgstats':
+        import warnings
+
+        produced, assessed = [], []
+        real_perform, real_assess = fp._perform_fit, fp._assess_fit
+
+        def perform(model_, data_, p0, bounds):
+            popt, st = real_perform(model_, data_, p0, bounds)
+            produced.append((frozenset(model_.param_names), st))
+            return popt, st
+
+        def assess(data_, peak_, popt, stats, bkg_stats, **kw):
+            assessed.append((peak_, stats, bkg_stats))
+            return real_assess(data_, peak_, popt, stats, bkg_stats, **kw)
+
+        fp._perform_fit, fp._assess_fit = perform, assess
+        try:
+            x = np.linspace(0.0, 10.0, 60)
+            # curved background with a peak: the linear-background candidate is rejected (p-value), the quadratic one is tried and assessed
+            y = 5.0 + 0.4 * (x - 5.0) ** 2 + 4.0 * np.exp(-(x - 5.0) ** 2 / (2 * 0.4 ** 2)) + rng.normal(size=60) * 0.2
+            da = sc.DataArray(sc.array(dims=['x'], values=y, variances=np.full(60, 0.04)), coords={'x': sc.array(dims=['x'], values=x)})
+            with warnings.catch_warnings():
+                warnings.simplefilter('ignore')
+                peaks.fit_peaks(da, peak_estimates=sc.array(dims=['x'], values=[5.0]), windows=sc.scalar(6.0), background=tuple(case['backgrounds']), peak=tuple(case['peaks']))
+        finally:
+            fp._perform_fit, fp._assess_fit = real_perform, real_assess
+        for peak_, st, bst in assessed:
+            full = [k_ for k_, s_ in produced if s_ is st]
+            if not full:
+                bad.append('a candidate was assessed with statistics that no fit produced')
+                continue
+            bkey = frozenset(full[0] - peak_.param_names)
+            if bst is not None and not any(s_ is bst for k_, s_ in produced if k_ == bkey):
+                whose = [sorted(k_) for k_, s_ in produced if s_ is bst]
+                bad.append(f'candidate with background parameters {sorted(bkey)} was compared with the background-only fit of {whose}')
     elif kind == 'assess':
         model = case.get('model', {})
         n = case['n']
